@@ -25,6 +25,7 @@ package circuitbreaker
 //@   prop C20
 //@   nopanic
 //@   havoc
+//@   modifies @NEXT_IO
 //@   requires cb != nil
 //@   stable cb.failCount, cb.lastFailTime, cb.threshold, cb.recoverTime
 //@   let open0 = cb.failCount > cb.threshold
@@ -50,6 +51,7 @@ package circuitbreaker
 //@ func (*CircuitBreaker).InvokeHandler
 //@   prop C20
 //@   havoc
+//@   modifies @NEXT_INVOKE, ghost.mock_calls, ghost.mock_result, ghost.mock_err
 //@   requires cb != nil
 //@   stable cb.mockService
 //@   ensures [calls_next_once] ghost.fwd == old(ghost.fwd) + 1
